@@ -298,6 +298,16 @@ func (p *popCfg) genString() string {
 }
 
 func (p *popCfg) genTime() time.Time {
+	t := p.genInstant()
+	if p.cyc != nil {
+		// plan engine: the same instant in various zones (the wire format carries the instant only); no random draw
+		zones := []*time.Location{time.UTC, time.FixedZone("+0530", 19800), time.Local, time.FixedZone("-0930", -34200)}
+		t = t.In(zones[p.cyc.next("time.zone", len(zones))])
+	}
+	return t
+}
+
+func (p *popCfg) genInstant() time.Time {
 	r := p.r
 	if p.size > 0 && r.Chance(1, 6) {
 		// whole seconds over the full int64 range of the wire format (years far outside 1..9999)
@@ -375,6 +385,20 @@ func (p *popCfg) populate(v reflect.Value) {
 			}
 		}
 		x.Attribute = append(x.Attribute, kmip.Attribute{AttributeName: kmip.AttributeNameObjectType, AttributeValue: ot})
+		if p.cyc != nil && len(x.Attribute) > 1 {
+			// plan engine: the Object Type attribute stands at every position of the list in turn (first, middle, last)
+			at := p.cyc.next("import.objtype-pos", len(x.Attribute))
+			last := len(x.Attribute) - 1
+			ota := x.Attribute[last]
+			copy(x.Attribute[at+1:], x.Attribute[at:last])
+			x.Attribute[at] = ota
+			switch {
+			case at == 0:
+				p.count("import.objtype.first")
+			case at < last:
+				p.count("import.objtype.middle")
+			}
+		}
 		p.count("slice." + lenBucket(len(x.Attribute)))
 		p.fillOthers(v, "UniqueIdentifier", "ReplaceExisting", "KeyWrapType", "Attribute", "Object")
 		return
